@@ -140,14 +140,18 @@ def lppdSharesOK (rate : Dec) (pre : St) (changes : List (String × String × Na
     let paid : Nat := match changes.find? (fun c => c.1 == acct && c.2.1 == rowan) with
                       | some c => c.2.2.2 - c.2.2.1
                       | none => 0
-    let ft : Rat × Rat := pre.pools.foldl (fun (acc : Rat × Rat) e =>
+    -- (fair share, tolerance, some pool of the account has more provider units than pool units)
+    let ft : Rat × Rat × Bool := pre.pools.foldl (fun (acc : Rat × Rat × Bool) e =>
         let p := e.2
         match (pre.lpsOf p.sym).get acct with
         | none => acc
         | some lp =>
           let D : Rat := decToRat rate * (Nat.cast p.nBal : Rat)
           let n : Nat := (pre.lpsOf p.sym).length
-          (acc.1 + mkRat lp.units p.units * D, acc.2 + (Nat.cast n : Rat) * eps D)) (0, 0)
-    decide ((Nat.cast paid : Rat) ≤ ft.1 + ft.2) && decide (ft.1 - ft.2 ≤ (Nat.cast paid : Rat)))
+          let over : Bool := decide ((pre.lpsOf p.sym).foldl (fun a x => a + x.2.units) 0 > p.units)
+          (acc.1 + mkRat lp.units p.units * D, acc.2.1 + (Nat.cast n : Rat) * eps D, acc.2.2 || over)) (0, 0, false)
+    -- the running clamp at the pool's distribution starves later providers when the providers' units exceed
+    -- the pool units (C02's finding F17 leaves such pools): the lower bound is judged only without such a pool
+    decide ((Nat.cast paid : Rat) ≤ ft.1 + ft.2.1) && (ft.2.2 || decide (ft.1 - ft.2.1 ≤ (Nat.cast paid : Rat))))
 
 end Sif.Spec.C18
